@@ -13,6 +13,7 @@ import (
 	"os"
 	"runtime"
 	"sort"
+	"strconv"
 	"strings"
 	"sync"
 
@@ -59,6 +60,7 @@ type world struct {
 	me        spectypes.OperatorID
 	pool      *qnet.Pool
 	deepPaths [][][]byte
+	deepStart []byte // this operator's start value ('A'/'B') in the run each deep path comes from
 }
 
 func (w *world) newNode() (*instance.Instance, *capNet, *nodeTimer) {
@@ -221,13 +223,14 @@ func (w *world) step(p *product, m *specqbft.SignedMessage) string {
 
 type letter struct {
 	name string
-	msg  *specqbft.SignedMessage // nil = timeout
-	base bool                    // honest message of a real run (drives the exploration)
+	msg  *specqbft.SignedMessage   // nil = timeout
+	base bool                      // honest message of a real run (drives the exploration)
+	more []*specqbft.SignedMessage // class-level letters (phase E): further messages of the same class
 }
 
 // deepPaths: for every execution of the same searches, what operator `me` itself processed, in
 // order (message bytes, or nil for a timeout) - realistic long histories for the product.
-func (w *world) honestPool(maxRound specqbft.Round, k int) []*specqbft.SignedMessage {
+func (w *world) honestPool(maxRound specqbft.Round, k int, stop func() bool) []*specqbft.SignedMessage {
 	var out []*specqbft.SignedMessage
 	seen := map[string]bool{}
 	seenPath := map[string]bool{}
@@ -235,13 +238,16 @@ func (w *world) honestPool(maxRound specqbft.Round, k int) []*specqbft.SignedMes
 	// resp. round 2 silent (k+1 deviations) so that justified proposals, prepared round-changes and
 	// traffic of rounds 2 and 3 are in the alphabet
 	type src struct {
-		byz spectypes.OperatorID
-		k   int
+		byz       spectypes.OperatorID
+		k         int
+		pathsOnly bool // contributes deep paths, not letters
 	}
-	srcs := []src{{0, k}}
+	// (all correct with one more deviation: a round that fails after somebody prepared, so that
+	// prepared round-changes meet leaders with another start value)
+	srcs := []src{{0, k, false}, {0, k + 1, true}}
 	for _, r := range []specqbft.Round{1, 2} {
 		if l := w.c.Leader(r); l != w.me && w.c.N == 4 {
-			srcs = append(srcs, src{l, k + 1})
+			srcs = append(srcs, src{l, k + 1, false})
 		}
 	}
 	for _, sr := range srcs {
@@ -253,7 +259,11 @@ func (w *world) honestPool(maxRound specqbft.Round, k int) []*specqbft.SignedMes
 			c.Start = st
 			pool := qnet.NewPool()
 			wd, init := qnet.NewWorld(&c, pool)
-			s := &qnet.Search{K: k, AllowDeviation: func(_ *qnet.World, e qnet.Event, _ int) bool {
+			deep := sr.pathsOnly
+			s := &qnet.Search{K: k, Stop: stop, AllowDeviation: func(_ *qnet.World, e qnet.Event, _ int) bool {
+				if deep {
+					return e.Kind == qnet.Isolate || e.Kind == qnet.DropAll
+				}
 				return e.Kind == qnet.Isolate || e.Kind == qnet.Timeout || e.Kind == qnet.Drop || e.Kind == qnet.DropAll
 			}}
 			cc := c
@@ -278,14 +288,16 @@ func (w *world) honestPool(maxRound specqbft.Round, k int) []*specqbft.SignedMes
 						}
 					}
 				}
-				if !seenPath[key] && string(cc.Start[w.me]) == "A" {
+				key += string(cc.Start[w.me])
+				if !seenPath[key] {
 					seenPath[key] = true
 					w.deepPaths = append(w.deepPaths, path)
+					w.deepStart = append(w.deepStart, cc.Start[w.me])
 				}
 			}
 			s.Run(wd, init)
 			for _, m := range pool.List {
-				if !seen[m.Key] {
+				if !seen[m.Key] && !sr.pathsOnly {
 					seen[m.Key] = true
 					out = append(out, m.Signed)
 				}
@@ -410,8 +422,8 @@ func (w *world) mutants(m *specqbft.SignedMessage, donor *specqbft.SignedMessage
 	return out
 }
 
-func (w *world) alphabet(maxRound specqbft.Round, k int) []letter {
-	hp := w.honestPool(maxRound, k)
+func (w *world) alphabet(maxRound specqbft.Round, k int, stop func() bool) []letter {
+	hp := w.honestPool(maxRound, k, stop)
 	out := []letter{{name: "timeout", base: true}}
 	classes := map[string]bool{}
 	var donorRC, donorProp *specqbft.SignedMessage
@@ -452,6 +464,51 @@ func (w *world) alphabet(maxRound specqbft.Round, k int) []letter {
 	return out
 }
 
+// macroLetters builds the class-level alphabet of phase E from the honest letters.
+func (w *world) macroLetters(base []letter) []letter {
+	type cls struct {
+		name    string
+		bySig   map[spectypes.OperatorID]*specqbft.SignedMessage
+		signers []spectypes.OperatorID
+	}
+	var order []*cls
+	idx := map[string]*cls{}
+	out := []letter{{name: "timeout", base: true}}
+	for _, l := range base {
+		if l.msg == nil {
+			continue
+		}
+		if len(l.msg.Signers) != 1 {
+			out = append(out, l)
+			continue
+		}
+		name := classOf(&specqbft.SignedMessage{Message: l.msg.Message, FullData: l.msg.FullData, Signers: []spectypes.OperatorID{0}})
+		c := idx[name]
+		if c == nil {
+			c = &cls{name: name, bySig: map[spectypes.OperatorID]*specqbft.SignedMessage{}}
+			idx[name] = c
+			order = append(order, c)
+		}
+		sg := l.msg.Signers[0]
+		if c.bySig[sg] == nil { // the first variant of a signer represents it
+			c.bySig[sg] = l.msg
+			c.signers = append(c.signers, sg)
+		}
+	}
+	q := int(w.c.Share(w.me).Quorum)
+	for _, c := range order {
+		sort.Slice(c.signers, func(i, j int) bool { return c.signers[i] < c.signers[j] })
+		for k := 1; k <= len(c.signers) && k <= q; k++ {
+			l := letter{name: fmt.Sprintf("%d x %s (signers %v)", k, c.name, c.signers[:k]), msg: c.bySig[c.signers[0]], base: true}
+			for _, sg := range c.signers[1:k] {
+				l.more = append(l.more, c.bySig[sg])
+			}
+			out = append(out, l)
+		}
+	}
+	return out
+}
+
 // ---- search ----
 
 type node struct {
@@ -470,6 +527,10 @@ type result struct {
 	MutantStatesCovered int
 	DeepPaths           int
 	DeepStates          int
+	Splice              spliceStats
+	Macros, MacroDepth  int
+	MacroStates         int
+	MacroSteps          int
 }
 
 func explore(r *ev.Run, w *world, start []byte, alpha []letter, maxTransitions int, tag string) result {
@@ -489,6 +550,7 @@ func explore(r *ev.Run, w *world, start []byte, alpha []letter, maxTransitions i
 		return res
 	}
 	seen := map[[32]byte]bool{w.key(init): true}
+	seenSet := seen // the set expand deduplicates against (phase E uses its own)
 	var mu sync.Mutex
 	workers := runtime.NumCPU()
 	// expand applies the given letters to every node (in parallel), records differences and returns
@@ -504,10 +566,16 @@ func explore(r *ev.Run, w *world, start []byte, alpha []letter, maxTransitions i
 					for _, l := range letters {
 						p2 := w.clone(n.p)
 						diff := w.step(p2, l.msg)
+						for _, m2 := range l.more {
+							if diff != "" {
+								break
+							}
+							diff = w.step(p2, m2)
+						}
 						k2 := w.key(p2)
 						changed := k2 != n.key
 						mu.Lock()
-						used++
+						used += 1 + len(l.more)
 						cls := "rejected-by-both"
 						if p2.nNet.out != nil {
 							cls = "accepted+broadcast"
@@ -521,8 +589,8 @@ func explore(r *ev.Run, w *world, start []byte, alpha []letter, maxTransitions i
 						if diff != "" {
 							path := append(append([]string{}, n.path...), l.name)
 							r.Violate("differs-from-spec: "+short(diff)+decidedTag(diff, n.p), diff+" after "+l.name, "c06", map[string]interface{}{"config": tag, "path": path}, diff, "identical observable behaviour")
-						} else if changed && collect && !seen[k2] {
-							seen[k2] = true
+						} else if changed && collect && !seenSet[k2] {
+							seenSet[k2] = true
 							nm := n.mutants
 							if !l.base {
 								nm++
@@ -558,6 +626,10 @@ func explore(r *ev.Run, w *world, start []byte, alpha []letter, maxTransitions i
 	frontier := all
 	depth := 0
 	budgetA := maxTransitions / 6
+	onlyD := os.Getenv("VERIF_C06_ONLY_D") != "" // experiments only
+	if onlyD {
+		budgetA = 0
+	}
 	for len(frontier) > 0 && budgetA > 0 {
 		next, used, complete := expand(frontier, base, budgetA, true)
 		res.Transitions += used
@@ -573,7 +645,11 @@ func explore(r *ev.Run, w *world, start []byte, alpha []letter, maxTransitions i
 	res.HonestDepth = depth
 	// phase B: every mutated letter in every honest-reachable state (breadth-first order), and one
 	// honest step after each accepted mutant
-	next, used, complete := expand(all, mut, maxTransitions/2-res.Transitions, true)
+	budgetB := maxTransitions/2 - res.Transitions
+	if onlyD {
+		budgetB = 0
+	}
+	next, used, complete := expand(all, mut, budgetB, true)
 	res.Transitions += used
 	res.MutantStatesCovered = len(all)
 	if !complete {
@@ -593,13 +669,16 @@ func explore(r *ev.Run, w *world, start []byte, alpha []letter, maxTransitions i
 	// pass 1: every deep path, step comparison only; pass 2: all mutants in every new state on the
 	// way, as far as the budget goes
 	for pass := 1; pass <= 2; pass++ {
-		for _, path := range w.deepPaths {
+		if onlyD && pass == 2 {
+			break
+		}
+		for pi, path := range w.deepPaths {
 			if pass == 2 && (res.Transitions >= maxTransitions+maxTransitions/2 || r.Expired()) {
 				res.Complete = false
 				break
 			}
-			cur, _ := w.initial(start)
-			var names []string
+			cur, _ := w.initial(qnet.Val(w.deepStart[pi]))
+			names := []string{"start value " + string(w.deepStart[pi])}
 			for _, b := range path {
 				var m *specqbft.SignedMessage
 				name := "timeout"
@@ -640,7 +719,47 @@ func explore(r *ev.Run, w *world, start []byte, alpha []letter, maxTransitions i
 			}
 		}
 	}
-	res.States = len(seen)
+	// phase E: class-level breadth-first search. A letter is "k messages of one content class from
+	// its k lowest-numbered signers" (k = 1..quorum), one aggregated message, or a timeout, so that a
+	// whole protocol phase (a prepare quorum, a commit quorum, a round-change quorum) is one step and
+	// histories ten and more messages long are reached; every message inside a letter is compared.
+	macros := w.macroLetters(base)
+	res.Macros = len(macros)
+	seenE := map[[32]byte]bool{w.key(init): true}
+	seenSet = seenE
+	frontier = []node{{p: init, key: w.key(init)}}
+	budgetE := maxTransitions
+	if v, err := strconv.Atoi(os.Getenv("VERIF_C06_E")); err == nil { // experiments only
+		budgetE = v
+	}
+	for len(frontier) > 0 && budgetE > 0 {
+		next, used, complete := expand(frontier, macros, budgetE, true)
+		res.Transitions += used
+		res.MacroSteps += used
+		budgetE -= used
+		if !complete {
+			res.Complete = false
+			break
+		}
+		res.MacroDepth++
+		frontier = next
+	}
+	res.MacroStates = len(seenE)
+	seenSet = seen
+	// phase D: splices of recorded histories across runs, with one lost burst (splice.go)
+	budgetD := maxTransitions
+	if !r.Thorough() {
+		budgetD = maxTransitions / 3
+	}
+	if v, err := strconv.Atoi(os.Getenv("VERIF_C06_D")); err == nil { // experiments only
+		budgetD = v
+	}
+	res.Splice = w.phaseD(r, start, budgetD, tag, res.Hist, os.Getenv("VERIF_C06_NOLOSS") != "", !r.Thorough())
+	res.Transitions += res.Splice.Steps
+	if !res.Splice.Complete {
+		res.Complete = false
+	}
+	res.States = len(seen) + res.Splice.Memo
 	return res
 }
 
@@ -676,6 +795,13 @@ func main() {
 	if r.Thorough() {
 		jobs = []job{{4, 2, 3, 1, 6000000}, {4, 3, 3, 1, 6000000}, {4, 4, 3, 1, 3000000}, {4, 1, 3, 1, 3000000}, {7, 2, 2, 0, 2000000}, {7, 3, 2, 0, 2000000}}
 	}
+	if v := os.Getenv("VERIF_C06_JOB"); v != "" { // experiments only: "n,me,maxRound,k,cap"
+		var j job
+		var me, mr int
+		fmt.Sscanf(v, "%d,%d,%d,%d,%d", &j.n, &me, &mr, &j.k, &j.cap)
+		j.me, j.maxRound = spectypes.OperatorID(me), specqbft.Round(mr)
+		jobs = []job{j}
+	}
 	if r.Replay != "" {
 		ev.Fatal("replay: re-run the check; the recorded path names the letters to apply from the start state")
 	}
@@ -686,7 +812,7 @@ func main() {
 		c := &qnet.Cfg{N: j.n, Height: 1, MaxRound: j.maxRound, Role: spectypes.BNRoleAttester}
 		c.Init()
 		w := &world{c: c, me: j.me, pool: qnet.NewPool()}
-		alpha := w.alphabet(j.maxRound, j.k)
+		alpha := w.alphabet(j.maxRound, j.k, r.Expired)
 		if os.Getenv("VERIF_C06_ALPHA") != "" {
 			for _, l := range alpha {
 				if l.base {
@@ -705,7 +831,7 @@ func main() {
 			exhaustive = false
 			r.CapHit(fmt.Sprintf("%s: transition cap %d / deadline", tag, j.cap))
 		}
-		bounds = append(bounds, fmt.Sprintf("%s: alphabet=%d (honest %d) states=%d transitions=%d honest-BFS-depth-completed=%d states-with-all-mutants-applied=%d deep-paths=%d/%d new-states-on-deep-paths(all mutants applied)=%d complete=%v", tag, res.Alphabet, res.Base, res.States, res.Transitions, res.HonestDepth, res.MutantStatesCovered, res.DeepPaths, len(w.deepPaths), res.DeepStates, res.Complete))
+		bounds = append(bounds, fmt.Sprintf("%s: alphabet=%d (honest %d) states=%d transitions=%d honest-BFS-depth-completed=%d states-with-all-mutants-applied=%d deep-paths=%d/%d new-states-on-deep-paths(all mutants applied)=%d class-level-BFS(letters=%d depth-completed=%d states=%d steps=%d) splices(states-after-timeout=%d continuations=%d automaton-states=%d cuts-complete-without-loss=%d levels=%d, <=1 lost burst) steps=%d complete=%v", tag, res.Alphabet, res.Base, res.States, res.Transitions, res.HonestDepth, res.MutantStatesCovered, res.DeepPaths, len(w.deepPaths), res.DeepStates, res.Macros, res.MacroDepth, res.MacroStates, res.MacroSteps, res.Splice.States, res.Splice.Suffixes, res.Splice.Nodes, res.Splice.NoLossComplete, res.Splice.Depth, res.Splice.Steps, res.Complete))
 	}
 	r.Set("traces_validated_against_impl", r.Get("transitions"))
 	r.Set("bounds", bounds)
